@@ -22,6 +22,41 @@ EXPLANATION = (
 SITES = (("SupervisedOPF", "fit"), ("SupervisedOPF", "predict"), ("SemiSupervisedOPF", "fit"))
 
 
+def check_storage_order_loops(rep, w) -> int:
+    """PERM-carried: a loop that visits the nodes in storage order (`for i in range(n_nodes)`, `for node in nodes`) must not
+    write a field of one node from the same field of another node chosen per round (nodes[i].f = nodes[g(i)].f): whether
+    nodes[g(i)].f already has its final value then depends on whether g(i) is stored before i - on the order of the
+    training set.  (The same copy made in conquest order, or from a node fixed for the whole loop, is fine.)"""
+    from ..ir import subterms
+    from ..schema import node_loop
+    n = 0
+    for li in w.loops.values():
+        nl = node_loop(li)
+        if nl is None:
+            continue
+        n += 1
+        G, ix, N = nl
+
+        def varies(t):
+            return any((u[0] == "iter" and u[-1] == li.lid) or (u[0] == "iterproj" and u[2] == li.lid)
+                       or (u[0] == "phi" and u[1] == li.lid) for u in subterms(t))
+        for e in w.events:
+            if e.kind != "store" or li.lid not in e.loops or e.target[0] != "attr" or e.aug:
+                continue
+            tgt_node, f = e.target[1], e.target[2]
+            if tgt_node != N:
+                continue
+            bad = [u for u in subterms(e.value) if u[0] == "attr" and u[2] == f and u[1] != N and u[1][0] == "idx"
+                   and u[1][1] == ("attr", G, "nodes") and varies(u[1][2])]
+            if bad:
+                from ..ir import show
+                rep.ev("PERM-carried", e, False,
+                       f"a loop over the nodes in storage order sets {f} of the current node from '{show(bad[0])[:100]}': that node "
+                       "has its final value only if it is stored earlier, so the result depends on the order of the training set "
+                       "(copying along predecessors is order-independent only in conquest order, idx_nodes)")
+    return n
+
+
 def check(chk, repo):
     chk.explanation = EXPLANATION
     rep = Rep(chk, repo)
@@ -37,6 +72,10 @@ def check(chk, repo):
         # wrapped before it is used is still followed from its matrix read / metric call)
         chk.floor(f"arc-weight sites in {cls}.{m}", max(n_here, st["sources"]), 1 if m == "predict" else 2)
         run_kinds(rep, w, rules=("K1", "K2", "K3", "K4"))
+    n_carried = 0
+    for cls, m in SITES:
+        n_carried += check_storage_order_loops(rep, model_walk(repo, cls, m))
+    chk.note("storage_order_loops_checked", n_carried)
     chk.floor("arc-weight sites in supervised / semi-supervised fit and predict", n_sites, 4)
     chk.floor("uses of weight-derived values checked", uses, 30)
     M = Metrics(repo)
